@@ -8,6 +8,7 @@ All statements hold in every linearly ordered field `K` (exact arithmetic); the 
 import Wheatley.Lemmas.NumField
 import Wheatley.Lemmas.Rhythm
 import Wheatley.Model.Solo
+import Wheatley.Lemmas.SoloWorld
 namespace Wheatley.C11
 open Generated
 
@@ -172,5 +173,154 @@ theorem handstroke_gap (s : Line K) (k : Nat) (hN : 0 < s.stage) :
 /-! Non-vacuity: 2h58 on six bells. -/
 example : pealSpeedToBlowInterval (178 : ℚ) 6 = 89 / 273 := by
   rw [interval_formula]; norm_num
+
+/-! ### The same for the real main loop (`World.run`), not only for its tick-loop abstraction `soloTimes` -/
+
+theorem tickSleep_pos : (0 : K) < Num.ofQ tickSleep := by
+  simp [num_ofQ, tickSleep]
+
+/-- **One whole turn of the real main loop, alone in the tower.**  From the loop head (`ringCheck`)
+with the next bell Wheatley's own, the line anchored, the clock before the bell's time and no message
+due: three steps of `World.run` later the main thread is back at the loop head; the strike, the row's
+calls and whatever the row boundary emits are logged at exactly `line time + hold-up`; the clock reads
+that time plus the loop's 10 ms; the Bot is the one `tick()` leaves; line and hold-up are untouched. -/
+theorem world_solo_turn (wt : K → K) (endTime : K) (fuel : Nat) (w : World K) (s : K) (bell : Nat)
+    (hpc : w.pc = .ringCheck) (hr : w.bot.isRinging = true) (hstub : w.rh.stub = none)
+    (hs : w.rh.reg.start = .fin s) (h0 : s ≠ 0)
+    (hb : w.bot.tickBegin = some (bell, false))
+    (hlt : w.now - w.delay < indexToRealTime (w.rh.reg.line s) w.bot.rowNumber w.bot.place)
+    (hend : indexToRealTime (w.rh.reg.line s) w.bot.rowNumber w.bot.place + w.delay + Num.ofQ tickSleep ≤ endTime)
+    (hnc : (w.bot.tickEnd bell false).2.findSome? isCrash = none) :
+    ∃ w' : World K,
+      World.run wt endTime (fuel + 3) w [] = World.run wt endTime fuel w' [] ∧
+      w'.pc = .ringCheck ∧
+      w'.now = indexToRealTime (w.rh.reg.line s) w.bot.rowNumber w.bot.place + w.delay + Num.ofQ tickSleep ∧
+      w'.bot = (w.bot.tickEnd bell false).1 ∧
+      w'.rh.reg.start = .fin s ∧ w'.rh.reg.interval = w.rh.reg.interval ∧ w'.rh.reg.stage = w.rh.reg.stage ∧
+      w'.rh.reg.gap = w.rh.reg.gap ∧ w'.delay = w.delay ∧ w'.rh.stub = none ∧
+      w'.obs = ((w.bot.tickEnd bell false).2.reverse.map
+          (fun o => ({ t := indexToRealTime (w.rh.reg.line s) w.bot.rowNumber w.bot.place + w.delay, out := o } : Obs K)))
+        ++ w.obs := by
+  set T := indexToRealTime (w.rh.reg.line s) w.bot.rowNumber w.bot.place with hT
+  have htick := tickSleep_pos (K := K)
+  -- step 1: to the bell's time
+  have h1 := solo_turn_begins wt w s bell hpc hr hstub hs h0 hb hlt
+  obtain ⟨m1, m1now⟩ := markStroke_sameLine w w.bot.hand
+  obtain ⟨ms, mi, mst, mg, md, mstub, mbot, mobs⟩ := m1
+  set wA0 : World K := { w.markStroke w.bot.hand with pc := .innerSlept bell false w.bot.hand } with hA0
+  have hA0now : wA0.now = w.now := m1now
+  have hd1 : 0 < T - (w.now - w.delay) := by linarith
+  have he1 : ¬ endTime < wA0.now + (T - (w.now - w.delay)) := by rw [hA0now]; intro h; linarith
+  have r1 := run_sleep wt endTime (fuel + 2) w wA0 _ h1 he1 hd1
+  set wA : World K := { wA0 with now := wA0.now + (T - (w.now - w.delay)) } with hA
+  have hAnow : wA.now = T + w.delay := by show wA0.now + _ = _; rw [hA0now]; ring
+  -- step 2: the strike and the row boundary
+  have hAbot : wA.bot = w.bot := mbot
+  have h2 := solo_turn_ends wt wA bell w.bot.hand rfl (by show (w.markStroke w.bot.hand).rh.stub = none; rw [mstub]; exact hstub)
+    (by rw [hAbot]; exact hnc)
+  obtain ⟨c1, c1now⟩ := clearReturn_sameLine wA
+  obtain ⟨cs, ci, cst, cg, cd, cstub, cbot, cobs⟩ := c1
+  obtain ⟨fr, fobs⟩ := foldl_applyOut_turnKind wt wA.now (wA.bot.tickEnd bell false).2
+    { wA.clearReturn with bot := (wA.bot.tickEnd bell false).1 } (tickEnd_turnKind _ _ _)
+  set wC : World K := (wA.bot.tickEnd bell false).2.foldl (World.applyOut wt wA.now)
+    { wA.clearReturn with bot := (wA.bot.tickEnd bell false).1 } with hC
+  have hCnow : wC.now = T + w.delay := by rw [fr.now]; show wA.clearReturn.now = _; rw [c1now, hAnow]
+  have he2 : ¬ endTime < ({ wC with pc := PC.tickSlept } : World K).now + Num.ofQ tickSleep := by
+    show ¬ endTime < wC.now + _; rw [hCnow]; intro h; linarith
+  have r2 := run_sleep wt endTime (fuel + 1) wA { wC with pc := .tickSlept } _ h2 he2 htick
+  -- step 3: the loop's 10 ms are over
+  set wD : World K := { ({ wC with pc := PC.tickSlept } : World K) with now := wC.now + Num.ofQ tickSleep } with hD
+  have h3 : wD.mainStep wt = ({ wD with pc := .ringCheck }, .continue) := by
+    unfold World.mainStep; rfl
+  have r3 := run_continue wt endTime fuel wD _ h3
+  refine ⟨{ wD with pc := .ringCheck }, ?_, rfl, ?_, ?_, ?_, ?_, ?_, ?_, ?_, ?_, ?_⟩
+  · rw [r1, r2]; exact r3
+  · show wC.now + _ = _; rw [hCnow]
+  · show wC.bot = _; rw [fr.bot]; show (wA.bot.tickEnd bell false).1 = _; rw [hAbot]
+  · show wC.rh.reg.start = _; rw [fr.start]; show wA.clearReturn.rh.reg.start = _; rw [cs]
+    show (w.markStroke w.bot.hand).rh.reg.start = _; rw [ms, hs]
+  · show wC.rh.reg.interval = _; rw [fr.interval]; show wA.clearReturn.rh.reg.interval = _; rw [ci]; exact mi
+  · show wC.rh.reg.stage = _; rw [fr.stage]; show wA.clearReturn.rh.reg.stage = _; rw [cst]; exact mst
+  · show wC.rh.reg.gap = _; rw [fr.gap]; show wA.clearReturn.rh.reg.gap = _; rw [cg]; exact mg
+  · show wC.delay = _; rw [fr.delay]
+    have : ({ wA.clearReturn with bot := (wA.bot.tickEnd bell false).1 } : World K).delay = wA.clearReturn.delay := rfl
+    rw [this, cd]; exact md
+  · show wC.rh.stub = _; rw [fr.stub]; show wA.clearReturn.rh.stub = _; rw [cstub]
+    show (w.markStroke w.bot.hand).rh.stub = none; rw [mstub]; exact hstub
+  · show wC.obs = _; rw [fobs]
+    have e1 : ({ wA.clearReturn with bot := (wA.bot.tickEnd bell false).1 } : World K).now = T + w.delay := by
+      show wA.clearReturn.now = _; rw [c1now, hAnow]
+    have e2 : ({ wA.clearReturn with bot := (wA.bot.tickEnd bell false).1 } : World K).obs = w.obs := by
+      show wA.clearReturn.obs = _; rw [cobs]; exact mobs
+    rw [e1, e2, hAbot]
+
+/-- **Any number of turns of the real main loop, alone in the tower**: `3·n` steps of `World.run`
+ring `n` turns, and every output of every turn — the strikes in particular — is logged at exactly the
+turn's time on the line `start + I·(r·N + p + ⌊r/2⌋·g)` plus the hold-up accumulated before.  No error
+accumulates: the clock after each turn is that time plus the loop's 10 ms, still before the next bell's
+time because the interval is longer than 10 ms. -/
+theorem world_solo_rows (wt : K → K) (endTime : K) (l : Line K) (D : K)
+    (hI : (Num.ofQ tickSleep : K) < l.interval) (h0 : l.start ≠ 0) :
+    ∀ (n fuel : Nat) (w : World K),
+      w.pc = .ringCheck → w.rh.stub = none → w.rh.reg.start = .fin l.start → w.rh.reg.line l.start = l →
+      w.delay = D → w.now - D < indexToRealTime l w.bot.rowNumber w.bot.place →
+      AloneFor l D endTime n w.bot →
+      ∃ w' : World K,
+        World.run wt endTime (fuel + 3 * n) w [] = World.run wt endTime fuel w' [] ∧
+        w'.obs = soloLog l D n w.bot ++ w.obs ∧ w'.pc = .ringCheck ∧
+        w'.rh.reg.line l.start = l ∧ w'.delay = D := by
+  intro n
+  induction n with
+  | zero =>
+    intro fuel w hpc _ _ hl hd _ _
+    exact ⟨w, rfl, by simp [soloLog], hpc, hl, hd⟩
+  | succ n ih =>
+    intro fuel w hpc hstub hs hl hd hlt hal
+    obtain ⟨hr, hend, bell, hb, hnc, hadv, hrest⟩ := hal
+    have hlt' : w.now - w.delay < indexToRealTime (w.rh.reg.line l.start) w.bot.rowNumber w.bot.place := by
+      rw [hl, hd]; exact hlt
+    have hend' : indexToRealTime (w.rh.reg.line l.start) w.bot.rowNumber w.bot.place + w.delay + Num.ofQ tickSleep ≤ endTime := by
+      rw [hl, hd]; exact hend
+    obtain ⟨w1, hrun, h1pc, h1now, h1bot, h1s, h1i, h1st, h1g, h1d, h1stub, h1obs⟩ :=
+      world_solo_turn wt endTime (fuel + 3 * n) w l.start bell hpc hr hstub hs h0 hb hlt' hend' hnc
+    have h1l : w1.rh.reg.line l.start = l := by
+      rw [← hl]; unfold Reg.line; rw [h1i, h1st, h1g]
+    rw [hl, hd] at h1now h1obs
+    cases n with
+    | zero =>
+      refine ⟨w1, ?_, ?_, h1pc, h1l, by rw [h1d, hd]⟩
+      · simpa using hrun
+      · rw [h1obs]; simp [soloLog, hb]
+    | succ m =>
+      have hadv' := hadv.resolve_left (by omega)
+      have hlt1 : w1.now - D < indexToRealTime l w1.bot.rowNumber w1.bot.place := by
+        rw [h1now, h1bot]
+        have hpos : (0 : K) < l.interval := lt_trans tickSleep_pos hI
+        simp only [indexToRealTime, blowTimeToRealTime] at *
+        nlinarith
+      obtain ⟨w2, hrun2, h2obs, h2pc, h2l, h2d⟩ :=
+        ih fuel w1 h1pc h1stub h1s h1l (by rw [h1d, hd]) hlt1 (by rw [h1bot]; exact hrest)
+      refine ⟨w2, ?_, ?_, h2pc, h2l, h2d⟩
+      · have e : fuel + 3 * (m + 1 + 1) = fuel + 3 * (m + 1) + 3 := by ring
+        rw [e, hrun, hrun2]
+      · rw [h2obs, h1obs, h1bot]
+        simp [soloLog, hb, List.append_assoc]
+
+/-! Non-vacuity: plain hunt on four, all bells Wheatley's, just after Look To; line anchored at 103 s
+with four blows a second.  The first two turns (bells 1 and 2 of the opening rounds) satisfy `AloneFor`. -/
+def soloBot : Bot :=
+  (((Bot.init ((mkPlainHunt 4 none).getD mkPlaceholder) false false true none none).onMsg
+      (.globalState [true, true, true, true])).1.lookTo).1
+
+example : AloneFor ({ stage := 4, gap := 1, start := 103, interval := 1 / 4 } : Line ℚ) 0 1000 2 soloBot := by
+  have e0 : soloBot.rowNumber = 0 := by decide
+  have e1 : soloBot.place = 0 := by decide
+  have e2 : (soloBot.tickEnd 1 false).1.rowNumber = 0 := by decide
+  have e3 : (soloBot.tickEnd 1 false).1.place = 1 := by decide
+  refine ⟨by decide, ?_, 1, by decide, by decide, Or.inr ?_, by decide, ?_, 2, by decide, by decide, Or.inl rfl, trivial⟩
+  · rw [e0, e1]; simp [indexToRealTime, blowTimeToRealTime, indexToBlowTime, num_ofQ, tickSleep]; norm_num
+  · rw [e0, e1, e2, e3]; simp [indexToBlowTime]
+  · rw [e2, e3]; simp [indexToRealTime, blowTimeToRealTime, indexToBlowTime, num_ofQ, tickSleep]; norm_num
+
 
 end Wheatley.C11
